@@ -37,7 +37,10 @@ def subpixel_pcc(
     product = f0 * f1.conj()
     power = _abs2(backend.ifftn(product))
     _max_shifts = np.asarray(max_shifts, dtype=np.float32)
-    _int_shifts = _max_shifts.astype(np.int32)
+    # The coarse (integer) peak is searched up to ceil(max_shifts): a displacement in the
+    # fractional rim of the range is nearest to the integer just outside of it. The
+    # refinement below restricts the result to max_shifts.
+    _int_shifts = np.ceil(_max_shifts).astype(np.int32)
     power = crop_by_max_shifts(power, _int_shifts, _int_shifts, backend)
 
     maxima = backend.unravel_index(backend.argmax(power), power.shape)
@@ -71,8 +74,11 @@ def subpixel_pcc(
 
         # The upsampled patch is centered at index `dftshift` (it is NOT in the FFT
         # order), so the region allowed by `max_shifts` is a plain slice around it.
-        _lshift = ((shifts + _max_shifts) * upsample_factor).astype(np.int32)
-        _rshift = ((_max_shifts - shifts) * upsample_factor).astype(np.int32)
+        # Offsets from the coarse peak are rounded inwards, with a small tolerance for
+        # limits that lie on the up-sampled grid.
+        _eps = 1e-3
+        _lshift = np.floor((shifts + _max_shifts) * upsample_factor + _eps)
+        _rshift = np.floor((_max_shifts - shifts) * upsample_factor + _eps)
         _center = int(dftshift)
         _starts = np.array([max(_center - int(l), 0) for l in _lshift], dtype=np.float32)
         power = power[
